@@ -532,7 +532,7 @@ pub fn scenarios(prop: &str, tier: Tier) -> Vec<Scenario> {
     match prop {
         "C01" => c01_like(tier, Oracles { rets: true, dump_after: true, reopen_copy: true, dump_in_tx: true, ..Oracles::NONE }, true),
         "C05" => c01_like(tier, Oracles { fileck: true, dbcheck: true, ..Oracles::NONE }, false),
-        "C07" => c01_like(tier, Oracles { rets: true, probe_each_op: Some(ProbeCfg::LIGHT), ..Oracles::NONE }, false),
+        "C07" => c01_like(tier, Oracles { rets: true, probe_each_op: Some(ProbeCfg::LIGHT), kept_cursor: true, ..Oracles::NONE }, false),
         "C06" => c06_scenarios(tier),
         "C03" => crate::c03::scenarios(tier),
         "C10" => crate::c10::scenarios(tier),
